@@ -98,6 +98,7 @@ def classify(spec, table, backend, kind, out2, diff=None, res=None):
         for fs in spec["columns"]:
             for c in table["columns"]:
                 if fs["name"] in listed and c["name"] == fs["name"] and fs.get("default") is not None \
+                        and not any(f2.get("parser") for f2 in spec["columns"] if f2["name"] in listed) \
                         and (fs.get("coerce") or spec.get("coerce")) and c["phys"] == "object" \
                         and any(isinstance(x, str) and x in null_texts for x in c["values"]):
                     # the frame-level defaults are filled BEFORE coercion, joint
@@ -108,7 +109,13 @@ def classify(spec, table, backend, kind, out2, diff=None, res=None):
     if backend.startswith("polars") and kind == "result-rejected-by-stripped-schema" \
             and spec.get("add_missing_columns"):
         labels = [c["name"] for c in table["columns"]]
-        if any(fs.get("regex") and fs.get("required", True)
+        try:
+            got = list(res.collect_schema().names()) if res is not None else []
+        except Exception:
+            got = []
+        # the symptom of that defect: the result HAS a column named like the
+        # pattern that matched nothing
+        if any(fs.get("regex") and fs.get("required", True) and fs["name"] in got
                and not any(M_match(fs["name"], l) for l in labels) for fs in spec["columns"]):
             return "polars-add_missing_columns-adds-column-named-after-unmatched-regex-pattern"
     if backend.startswith("polars") and kind == "revalidation-changes-result" and spec.get("drop_invalid_rows") \
@@ -313,7 +320,7 @@ def polars_case(run, spec, table, opts, muts, lazyframe):
                       C.brief(spec, table, {"backend": backend, "options": opts,
                                             "stripped_outcome": out2.kind, "reasons": out2.reasons(),
                                             "exc": repr(out2.exc)[:300] if out2.kind == "exc" else None}),
-                      classify(spec, table, backend, "result-rejected-by-stripped-schema", out2))
+                      classify(spec, table, backend, "result-rejected-by-stripped-schema", out2, res=res))
         return
     run.count("b:fixpoint_checked")
     if out3.kind == "exc":
